@@ -75,6 +75,8 @@ def run(ctx) -> None:
         m = idx.cls(rel, cn).methods.get("transform")
         if m is None:
             raise AnalysisError(f"{cn}.transform vanished")
+        from ..sem import inline_private_helpers
+        m = inline_private_helpers(idx, m)
         r1.instance(m.short)
         tc = [c for c in method_calls(m.node, "transform_tensor")]
         if len(tc) != 1:
@@ -102,7 +104,16 @@ def run(ctx) -> None:
              "TABresult.transform does not map all quantities and the k-points with the same operation", stmt="TAB transform")
     rd = idx.cls(RD, "ResultDict").methods.get("transform")
     r1.instance(rd.short)
-    r1.check("{k: self.results[k].transform(sym) for k in self.results}" in norm(rd.node), "ResultDict transforms every entry", rd, rd.node,
+    from .c16 import _dict_normal
+    RDS = Sem(idx, rd)
+    okrd = False
+    for c_ in ast.walk(rd.node):
+        if isinstance(c_, ast.Call) and call_name(c_) == "ResultDict" and c_.args:
+            nf = _dict_normal(RDS, c_.args[0], RDS.du.node_of_expr(c_))
+            if nf is not None:
+                key, val, src, conds = nf
+                okrd = src == "self.results" and val == f"self.results[{key}].transform({rd.params[1]})" and not conds
+    r1.check(okrd, "ResultDict transforms every entry", rd, rd.node,
              "ResultDict.transform does not transform every entry", stmt="dict transform")
     ttf = idx.function(PS, "PointSymmetry.transform_tensor")
     tf = norm(ttf.node).replace(" ", "")
